@@ -440,6 +440,45 @@ def check_other_forms(c, rng, n):
             if k.shape() != es or k.value != ev:
                 c.viol("const-from-enum-member-with-explicit-shape", member=repr(m), shape=repr(sh), got=[repr(k.shape()), k.value],
                        expected=[repr(es), ev])
+    # a user-written shape-castable whose const() uses the int-width shorthand (signed for negative initialisers,
+    # unsigned otherwise): Const(v, shape) must not hand out a constant that is not of the requested shape
+    from amaranth.hdl import ShapeCastable, Value
+
+    class Sloppy(ShapeCastable):
+        def __init__(self, w, sg):
+            self.w, self.sg = w, sg
+
+        def as_shape(self):
+            return Shape(self.w, self.sg)
+
+        def __call__(self, value):
+            return value
+
+        def const(self, init):
+            return Const(init or 0, self.w)
+
+        def from_bits(self, bits):
+            return bits
+
+        def format(self, value, spec):
+            from amaranth.hdl import Format
+            return Format("{}", Value.cast(value))
+    for w in (1, 3, 8):
+        for sg in (False, True):
+            for v in (-300, -5, -1, 0, 1, 5, 200):
+                c.case("const-of-user-shape-castable", [w, sg, v])
+                try:
+                    k = Const(v, Sloppy(w, sg))
+                except (ValueError, TypeError):
+                    continue          # refusing an inconsistent const() is fine
+                except Exception as ex:
+                    if exc_origin(ex) != "repo":
+                        raise
+                    c.viol("const-of-user-shape-castable:exception", shape=[w, sg], value=v, exception=repr(ex)[:200])
+                    continue
+                kv = Value.cast(k)
+                if kv.shape() != Shape(w, sg) or not fits(kv.value, w, sg):
+                    c.viol("constant-not-of-the-requested-shape", shape=[w, sg], value=v, got=[repr(kv.shape()), kv.value])
     for _ in range(n):
         w = rng.choice([1, 4, 7, 8, 8, 9, 16])
         sg = rng.random() < 0.5
